@@ -5,11 +5,12 @@ import json, sys
 CHECKS = {
  "C19": dict(
    level="model_checking",
-   text="Bounded symbolic execution of the real optimize/pad/offsetsof/align/sort.Sort code from go/ssa built from the working tree: "
-        "for every vector of n<=3 (quick) / n<=4 (thorough) fields with symbolic sizes (k*align, k<4096) and alignments {1,2,4,8}, the solver "
-        "decides on every feasible path that the output is a permutation, a valid gap-free aligned layout, and not larger than the input order.",
-   note="Bounds: n<=3/4 fields, size<2^15, align<=8. Trusted: go/packages+go/ssa front-end, z3 (cross-checked with cvc5 in thorough), GoSE interpreter "
-        "(validated per run by conformance replays against the natively compiled harness). gcsizes half of C19 is not yet covered.",
+   text="Bounded symbolic execution of the real code from go/ssa built from the working tree. optimize half: optimize/pad/offsetsof/align/sort.Sort for every vector of n<=3 (quick) / n<=4 (thorough) fields "
+        "with symbolic sizes (k*align, k<4096; the last field may be a size-1 padded zero-size field) and alignments {1,2,4,8}: permutation, valid gap-free aligned layout, not larger than the input order. "
+        "structlayout half: gcsizes.Sizeof/Alignof/Offsetsof against go/types' own gc sizes (executed by the same engine) on every struct skeleton of 0-3 fields over 12 basic kinds, pointer, slice, interface, "
+        "arrays with symbolic length (<2^16), nested/empty/named structs; and cmd/structlayout.sizes(): the reported fields tile [0, Sizeof) without gaps or overlaps.",
+   note="Bounds as stated; skeletons are enumerated by forking, sizes/lengths are symbolic. Reference for 'the compiler' is go/types SizesFor(gc, amd64) (trusted; spot-checked against unsafe.Sizeof). "
+        "Only amd64 (ForArch is replaced by its amd64 value in the symbolic run). Trusted: go/packages+go/ssa front-end, z3/cvc5, GoSE (conformance-checked against the native build each run).",
    technique="bounded symbolic execution of go/ssa + SMT (z3/cvc5), native replay of models",
    design="3/C19"),
 
